@@ -81,6 +81,7 @@ Definition run (v : val) : val :=
   | L [I 6; dir; fb; p] => vbool (may_open (dstr dir) (dopt dstr fb) (dstr p))
   | L [I 7; size; rng; r] =>
     L [vbool (response_ok (dZ size) (d_rng rng) (d_resp r)); v_expected (expect (dZ size) (d_rng rng))]
+  | L [I 8; mtime; ims] => vbool (not_modified (dZ mtime) (dopt dZ ims))
   | _ => L [I (-1)]
   end.
 
